@@ -490,6 +490,11 @@ class CoreMixin:
                 self.unknown(f"annotated-no-value:{name}")
         else:
             g = self.unknown(f"global-augassign:{name}")
+        if g.op == "Const" and isinstance(g.attr, (int, float)) and not isinstance(g.attr, bool):
+            # a named module constant keeps its own node (value numbering is by value anyway)
+            c = self.mk("Const", (), g.attr, (mod.relpath, stmt.lineno, 0))
+            c.extra = {"global": f"{mod.name}.{name}"}
+            return c
         # a module-level object is one shared object: remember where it lives
         if g.op not in IMMUTABLE_OPS:
             if g.extra is None:
